@@ -272,3 +272,10 @@ Fixpoint run_nofix (st : state) (ns : list notif) : res state :=
 Definition server_text (st : state) (uri : Z) : option text := option_map code (get uri (files st)).
 Definition server_version (st : state) (uri : Z) : option Z := option_map ver (get uri (files st)).
 Definition server_vfs (st : state) (uri : Z) : option text := get uri (vfs st).
+
+(** everything the check reads back for one document: file-cache text and version, VFS text *)
+Definition observe (st : state) (uri : Z) : option (text * Z * option text) :=
+  match get uri (files st) with
+  | Some e => Some (code e, ver e, get uri (vfs st))
+  | None => None
+  end.
